@@ -59,6 +59,7 @@ Section Pres.
     - now rewrite Ec.
     - now rewrite El, Ec.
     - rewrite Em. intros e H1 H2. eapply good_frame; [exact Ec|]. auto.
+    - rewrite Em. intros e H1. eauto.
     - intros e He. destruct (Her e He) as [H|[H|H]]; auto.
       destruct (gi_err e H) as [H1|[H1|[H1 H2]]]; auto.
       right; right. rewrite Em. split; [exact H1|]. eapply good_frame; eauto.
